@@ -5,6 +5,7 @@ package sched
 
 import (
 	"fmt"
+	"hash/fnv"
 	"strings"
 	"sync/atomic"
 )
@@ -98,7 +99,19 @@ type Scenario struct {
 	Key func() string
 }
 
-func run(sc Scenario, prefix []int, horizon int, states map[string]struct{}, prune bool) (*exec, Exec) {
+// StateSet holds the visited states as 128-bit FNV-1a digests of their complete keys (a key is
+// 100-300 bytes; explorations visit hundreds of millions of states). Two different keys collide
+// with probability about n^2/2^129, i.e. below 1e-20 for a billion states.
+type StateSet map[[16]byte]struct{}
+
+func digest(k string) (d [16]byte) {
+	h := fnv.New128a()
+	_, _ = h.Write([]byte(k))
+	h.Sum(d[:0])
+	return d
+}
+
+func run(sc Scenario, prefix []int, horizon int, states StateSet, prune bool) (*exec, Exec) {
 	e := &exec{yield: make(chan yieldMsg), prefix: prefix, horizon: horizon}
 	var out Exec
 	for i, body := range sc.Threads {
@@ -156,7 +169,7 @@ func run(sc Scenario, prefix []int, horizon int, states map[string]struct{}, pru
 					sb.WriteString("|" + t.label)
 				}
 			}
-			k := sb.String()
+			k := digest(sb.String())
 			if _, seen := states[k]; seen && prune && len(e.choices) >= len(prefix) && len(prefix) > 0 {
 				out.Pruned = true
 				abort()
@@ -280,8 +293,8 @@ type Explorer struct {
 	Horizon  int
 	MaxBound int
 	Stop     func() bool
-	Prune    bool                // cut executions at already visited states; requires a COMPLETE Scenario.Key and unbounded mode
-	States   map[string]struct{} // distinct (user state key, thread labels) seen at scheduling points (if Scenario.Key is set)
+	Prune    bool     // cut executions at already visited states; requires a COMPLETE Scenario.Key and unbounded mode
+	States   StateSet // distinct (user state key, thread labels) seen at scheduling points (if Scenario.Key is set)
 	res      Result
 	visited  map[string]int
 	skipped  bool
